@@ -5,7 +5,7 @@ Anchors are semantic: the lifecycle body is the unique crate body that calls
 `tokio::select` expansion; branch futures by the resolved calls whose root spans lie in the
 branch's future span (DSL facts)."""
 from absint import AbsInt
-from cfg import CFG, callee
+from cfg import CFG, callee, const_int
 from prov import Tracer, strip_refs, strip_wrappers, fn_path, show
 
 ACTOR_TRAIT = "rsactor::actor::Actor::"
@@ -353,7 +353,21 @@ class Lifecycle:
 
         # per-iteration facts are forgotten when a new select! is started; outcomes of hooks
         # and the consumption of a control signal are sticky
-        ai = AbsInt(self.body, self.cfg, self.tr, edge_labels=lambda bb: self.labels.get(bb), events=events,
+        # T4: a select! branch whose precondition is false cannot be the one that completes
+        idle_local, _ = find_idle_local(self) if self.select is not None and "error" not in self.select else (None, None)
+        sel_switch = {}
+        for sbb, info in self.switch_info.items():
+            if info["cls"] == ("select_out",):
+                for i, br in enumerate(self.sel_branches):
+                    if br["kind"] == "on_run" and ("_%d" % i) in info["arms"]:
+                        sel_switch[sbb] = info["arms"]["_%d" % i]
+
+        def edge_filter(bb, store):
+            if idle_local is not None and bb in sel_switch and store.get(idle_local) == ("c", 0):
+                return {sel_switch[bb]}
+            return ()
+
+        ai = AbsInt(self.body, self.cfg, self.tr, edge_labels=lambda bb: self.labels.get(bb), events=events, edge_filter=edge_filter,
                     on_assign=on_assign, reset_at=[self.poll_fn_bb] if self.poll_fn_bb is not None else [],
                     reset_prefixes=("sel", "mbox_", "on_run_true", "on_run_false", "on_run_ok", "ctrl_none"),
                     reset_counters=("handle_message", "on_run"))
@@ -363,6 +377,34 @@ class Lifecycle:
 
     def loc(self, bb):
         return self.f.span(self.body.blocks[bb].term["span"]).loc
+
+
+def find_idle_local(lc):
+    """The local read by the precondition of the on_run branch (via the DSL cond span)."""
+    s = lc.select
+    idx = [i for i, b in enumerate(lc.sel_branches) if b["kind"] == "on_run"]
+    if not idx or idx[0] >= len(s["branches"]):
+        return None, "on_run is not a select! branch"
+    br = s["branches"][idx[0]]
+    if "cond" not in br:
+        return None, "the on_run branch has no precondition"
+    if len(br.get("cond_tokens", [])) != 1:
+        return None, "the precondition `%s` is not a single variable" % br["cond"]
+    lo, hi = br["cond_lo"], br["cond_hi"]
+    f, b = lc.f, lc.body
+    found = set()
+    for blk in b.blocks:
+        for st in blk.stmts:
+            if st["k"] == "assign" and "use" in st["rv"]:
+                sp = f.span(st["span"])
+                op = st["rv"]["use"]
+                pl = op.get("copy") or op.get("move")
+                if pl is not None and not pl["p"] and not sp.from_expansion and sp.lo == lo and sp.hi == hi:
+                    found.add(pl["l"])
+    if len(found) != 1:
+        return None, "cannot map the precondition `%s` to one local (%s)" % (br["cond"], sorted(found))
+    return found.pop(), None
+
 
 
 _cache = {}
